@@ -2,6 +2,7 @@ package main
 
 import (
 	"fmt"
+	"os"
 	"go/types"
 	"sort"
 	"strings"
@@ -85,6 +86,45 @@ func verifyFunctionH(prog *Program, ctr *Contracts, key string, secs int) *FuncR
 }
 
 func verifyFunction(prog *Program, ctr *Contracts, key string, disabled map[string]bool) (res *FuncResult) {
+	res = verifyFunctionCase(prog, ctr, key, disabled, nil, "")
+	if res.Err != "" || res.Trusted {
+		return
+	}
+	// case-specialised runs for "ensures label [when C]: ..." clauses
+	fc := ctr.Funcs[key]
+	seen := map[string]bool{}
+	for _, c := range fc.Ensures {
+		if len(c.From) > 0 {
+			o, err := deriveClause(prog, ctr, key, c)
+			if err != "" {
+				res.Err = err
+				return
+			}
+			res.Obls = append(res.Obls, o)
+			continue
+		}
+		if c.When == nil || seen[c.WhenSrc] {
+			continue
+		}
+		seen[c.WhenSrc] = true
+		sub := verifyFunctionCase(prog, ctr, key, disabled, c.When, c.WhenSrc)
+		if sub.Err != "" {
+			res.Err = sub.Err
+			return
+		}
+		for _, o := range sub.Obls {
+			if o.Kind == "post" || (o.Kind == "cover" && strings.HasSuffix(o.Name, "when")) {
+				res.Obls = append(res.Obls, o)
+			}
+		}
+	}
+	return
+}
+
+// verifyFunctionCase generates the obligations of one function; with a case
+// condition, only the ensures clauses carrying that condition are emitted and
+// the condition is assumed (and constant-folded) from the entry on.
+func verifyFunctionCase(prog *Program, ctr *Contracts, key string, disabled map[string]bool, when Expr, whenSrc string) (res *FuncResult) {
 	res = &FuncResult{Key: key}
 	fn := prog.Funcs[key]
 	fc := ctr.Funcs[key]
@@ -134,12 +174,39 @@ func verifyFunction(prog *Program, ctr *Contracts, key string, disabled map[stri
 	ex.sc.Assume(mkApp(">=", alloc0, "0"))
 	ex.globalAxioms(st)
 	// parameters
+	// constant bindings from the case condition: param.path == literal
+	binds := map[string]string{}
+	if when != nil && os.Getenv("GOVC_NOFOLD") == "" {
+		collectBindings(ex, when, binds)
+	}
 	for _, p := range fn.Params {
 		v, facts := ex.freshVal(st, p.Type(), "p."+p.Name())
+		if len(binds) > 0 {
+			ls := leavesOf(p.Type())
+			ts := flatten(v)
+			changed := false
+			for i, l := range ls {
+				n := p.Name()
+				if l.Path != "" {
+					n += "." + l.Path
+				}
+				if lit, ok := binds[n]; ok {
+					ex.sc.Assume(mkEq(ts[i], lit))
+					ts[i] = lit
+					changed = true
+				}
+			}
+			if changed {
+				v, _ = unflatten(p.Type(), ts)
+			}
+		}
 		fr.vals[p] = v
 		ex.sc.Assume(mkAnd(facts...))
 		ls := leavesOf(p.Type())
 		for i, t := range flatten(v) {
+			if k := ls[i].Kind; (k == "ref" || k == "slice.arr" || k == "iface.ref") && isAtom(t) && !isLit(t) {
+				ex.sc.refSyms[t] = true
+			}
 			if ls[i].Sort == SInt || ls[i].Sort == SBool {
 				n := p.Name()
 				if ls[i].Path != "" {
@@ -173,8 +240,14 @@ func verifyFunction(prog *Program, ctr *Contracts, key string, disabled map[stri
 	for _, c := range fc.Requires {
 		ex.sc.Assume(fr.evalClause(env0, c))
 	}
-	o := ex.addOblig("cover", "pre", prog.pos(fn.Pos()), "false", "the precondition is satisfiable")
-	o.ExpectSat = true
+	if when != nil {
+		ex.sc.Assume(fr.evalClause(env0, Clause{E: when, Label: "when", Line: fc.Line}))
+		o := ex.addOblig("cover", sanitize(whenSrc)+".when", prog.pos(fn.Pos()), "false", "the case condition is satisfiable: "+whenSrc)
+		o.ExpectSat = true
+	} else {
+		o := ex.addOblig("cover", "pre", prog.pos(fn.Pos()), "false", "the precondition is satisfiable")
+		o.ExpectSat = true
+	}
 	// execute
 	fr.run("true", st)
 	// exits
@@ -188,13 +261,17 @@ func verifyFunction(prog *Program, ctr *Contracts, key string, disabled map[stri
 		co := ex.addOblig("cover", "return", prog.pos(fn.Pos()), mkNot(reach), "some return is reachable")
 		co.ExpectSat = true
 		for _, c := range fc.Ensures {
-			if c.OnPanic {
+			if c.OnPanic || c.WhenSrc != whenSrc || len(c.From) > 0 {
 				continue
 			}
 			g := fr.evalClause(env, c)
-			ex.addOblig("post", c.Label, fmt.Sprintf("contract line %d", c.Line), mkImp(reach, g), c.Src)
+			src := c.Src
+			if c.WhenSrc != "" {
+				src = "[when " + c.WhenSrc + "] " + src
+			}
+			ex.addOblig("post", c.Label, fmt.Sprintf("contract line %d", c.Line), mkImp(reach, g), src)
 		}
-		if fc.ModDeclared {
+		if fc.ModDeclared && when == nil {
 			ex.frameObligations(fr, fc, env0, reach, stR)
 		}
 	} else if len(fc.Ensures) > 0 {
@@ -418,4 +495,128 @@ func (fr *Frame) postLoopCtx() *LoopCtx {
 		return found
 	}
 	return nil
+}
+
+// collectBindings: conjuncts of the form  param.field... == constant  in a case condition.
+func collectBindings(ex *Exec, e Expr, out map[string]string) {
+	b, ok := e.(*EBinary)
+	if !ok {
+		return
+	}
+	if b.Op == "&&" {
+		collectBindings(ex, b.X, out)
+		collectBindings(ex, b.Y, out)
+		return
+	}
+	if b.Op != "==" {
+		return
+	}
+	path := func(e Expr) string {
+		var parts []string
+		for {
+			switch x := e.(type) {
+			case *ESel:
+				parts = append([]string{x.F}, parts...)
+				e = x.X
+				continue
+			case *EIdent:
+				parts = append([]string{x.Name}, parts...)
+				return strings.Join(parts, ".")
+			}
+			return ""
+		}
+	}
+	lit := func(e Expr) string {
+		defer func() { recover() }()
+		env := &Env{ex: ex, st: newState(), vars: map[string]TV{}}
+		switch e.(type) {
+		case *EInt, *EIdent:
+			tv := env.eval(e)
+			if tv.V.K == VInt && isLit(tv.V.T) {
+				return tv.V.T
+			}
+			if tv.V.K == VBool && (tv.V.T == "true" || tv.V.T == "false") {
+				return tv.V.T
+			}
+		}
+		return ""
+	}
+	if p, l := path(b.X), lit(b.Y); p != "" && l != "" {
+		out[p] = l
+	} else if p, l := path(b.Y), lit(b.X); p != "" && l != "" {
+		out[p] = l
+	}
+}
+
+// deriveClause: "ensures X [from A, B]" is proved from the clauses A and B
+// alone, over arbitrary entry/exit states and results (no code): a consequence
+// of what the code was separately proved to establish.
+func deriveClause(prog *Program, ctr *Contracts, key string, c Clause) (o *Oblig, errs string) {
+	fn := prog.Funcs[key]
+	fc := ctr.Funcs[key]
+	ex := newExec(prog, ctr, fn, fc)
+	defer func() {
+		if r := recover(); r != nil {
+			switch e := r.(type) {
+			case OOS:
+				errs = e.Error()
+			case evalErr:
+				errs = "contract error: " + string(e)
+			default:
+				panic(r)
+			}
+		}
+	}()
+	st0 := newState()
+	ex.entry = st0
+	st1 := &State{heap: map[string]string{}, suffix: "@1"}
+	fr := ex.newFrame(fn, nil)
+	fr.top = true
+	fr.st, fr.cur = st0, "true"
+	ex.sc.Assume(mkApp(">=", ex.get(st0, allocKey, SInt), "0"))
+	ex.sc.Assume(mkApp(">=", ex.get(st1, allocKey, SInt), ex.get(st0, allocKey, SInt)))
+	for _, p := range fn.Params {
+		v, facts := ex.freshVal(st0, p.Type(), "p."+p.Name())
+		fr.vals[p] = v
+		ex.sc.Assume(mkAnd(facts...))
+	}
+	env := fr.topEnv(st1)
+	env.old = st0
+	rs := fn.Signature.Results()
+	var results []Val
+	for i := 0; i < rs.Len(); i++ {
+		v, facts := ex.freshVal(st1, rs.At(i).Type(), fmt.Sprintf("res%d", i))
+		ex.sc.Assume(mkAnd(facts...))
+		results = append(results, v)
+	}
+	bindResults(env, rs, results)
+	env0 := fr.topEnv(st0)
+	env0.old = st0
+	for _, r := range fc.Requires {
+		ex.sc.Assume(fr.evalClause(env0, r))
+	}
+	formula := func(cl Clause) string {
+		g := fr.evalClause(env, cl)
+		if cl.When != nil {
+			g = mkImp(fr.evalClause(env0, Clause{E: cl.When, Label: cl.Label + ".when", Line: cl.Line}), g)
+		}
+		return g
+	}
+	for _, name := range c.From {
+		found := false
+		for _, a := range fc.Ensures {
+			if a.Label == name {
+				if len(a.From) > 0 {
+					panic(oos("derived clause %s depends on another derived clause %s", c.Label, name))
+				}
+				ex.sc.Assume(formula(a))
+				found = true
+			}
+		}
+		if !found {
+			panic(oos("derived clause %s: no ensures clause %q", c.Label, name))
+		}
+	}
+	o = ex.addOblig("post", c.Label, fmt.Sprintf("contract line %d", c.Line), formula(c), "[from "+strings.Join(c.From, ", ")+"] "+c.Src)
+	return
 }
